@@ -82,3 +82,16 @@ Theorem C10_old_dummy_constructor_breaks_paths :
                      ~ TourStmts.connected nw (t_nodes dt).
 Proof. exact tour_new_dummy_prefix_breaks_connectivity. Qed.
 Print Assumptions C10_old_dummy_constructor_breaks_paths.
+
+(** rotation cycles: for every history in which fit_reassign is not called with provider = receiver, for every
+    vehicle type, the stored cycles contain exactly the type's vehicles, each once, the lookup table and the list of
+    empty cycles are exact, and every cycle's maintenance counter, the violation and the total equal their values
+    recomputed from the current tours (this is also the remaining schedule-level item of C09). The unrestricted
+    statement is refuted only on a network with negative dead-head durations. *)
+From RS Require Import SchedTransFacts.
+Theorem C10_reachable_cycles : forall nw s, dreachable nw s -> TransOK nw s.
+Proof. exact reachable_trans_under_distinct. Qed.
+Print Assumptions C10_reachable_cycles.
+Theorem C10_reachable_cycles_unrestricted_refuted : ~ (forall nw, stmt_reachable_trans nw).
+Proof. exact reachable_trans_refuted. Qed.
+Print Assumptions C10_reachable_cycles_unrestricted_refuted.
